@@ -1,5 +1,6 @@
 from typing import Any, Dict, Literal, Optional
 
+from pydantic import Extra
 from pydantic.fields import ModelField
 
 from ..util import is_public_name
@@ -70,6 +71,14 @@ def add_const_fields(consts: Dict[str, Any], *, override: bool = False):
 
     def add_fields(mcls):
         _expect_schema_class(mcls)
+
+        # a new constant is a new field: same rule as in the schema metaclass
+        base = mcls.__base__
+        if base.__config__.extra is Extra.forbid:
+            if new_consts := set(consts.keys()) - set(base.__fields__.keys()):
+                msg = f"{mcls.__name__}: Cannot define new constant fields {new_consts} "
+                msg += "if parent forbids extra fields!"
+                raise TypeError(msg)
 
         # hacking it in-place approach:
         overridden = set()
